@@ -25,7 +25,7 @@ def step(title, cmd):
     return rc, o
 
 # normalise the tree: clean, then apply patch + demo
-sh('git checkout -- . && git clean -fdq -e SEEDED -e target')
+sh('git reset -q && git checkout -- . && git clean -fdq -e SEEDED -e target')
 rc, o = sh(f'git apply {out}/patch.diff && git apply {out}/demo.diff')
 assert rc == 0, o
 demo = meta['demo_cmd']
